@@ -155,6 +155,14 @@ Definition parent (st : state) (b : N) : N := b_parent (binfo_of st b).
 Definition invalid (st : state) (b : N) : bool := b_invalid (binfo_of st b).
 Definition obj_of (st : state) (h : N) : obj := match nthN (s_objs st) h with Some o => o | None => obj0 end.
 
+(* a block first seen as bytes: child of the known block [p]; when [p] is not a known block the
+   parent is some id the node never sees — represented by a self-loop (and height 0) *)
+Definition new_binfo (blocks : list binfo) (p : N) (inv : bool) : binfo :=
+  match nthN blocks p with
+  | Some i => mkB p (b_height i + 1) inv
+  | None => mkB (lenN blocks) 0 inv
+  end.
+
 (* ChainIndex.UpdateLastAccepted (writeBlock): id -> height, height -> id/bytes *)
 Definition index_write (b : N) (st : state) : state :=
   mkS (s_ready st) (s_blocks st) (s_objs st) (s_verified st) (s_acc_id st) (s_acc_h st) (s_parsed st)
@@ -289,8 +297,7 @@ Definition step (c : cfg) (st : state) (o : op) : state * res * list event :=
   match o with
   | OParseNew p inv =>
     let b := lenN (s_blocks st) in
-    let ht := match nthN (s_blocks st) p with Some i => b_height i + 1 | None => 0 end in
-    do_parse c (set_blocks (s_blocks st ++ [mkB p ht inv]) st) b
+    do_parse c (set_blocks (s_blocks st ++ [new_binfo (s_blocks st) p inv]) st) b
   | OParse b => do_parse c st b
   | OBuild =>
     match get_block st (s_pref st) with
@@ -480,7 +487,8 @@ Record estate := mkE {
   e_pending : N;                 (* accepted in normal operation, not yet handled by the accepter *)
   e_ready : bool;
   e_started : bool;              (* StartStateSync was called *)
-  e_sync : list N                (* ids accepted since (and including) the sync target, oldest first *)
+  e_sync : list N;               (* ids accepted since (and including) the sync target, oldest first *)
+  e_pref : N                     (* the preference last given to the VM *)
 }.
 
 Definition e_binfo (es : estate) (b : N) : binfo := match nthN (e_blocks es) b with Some i => i | None => binfo0 end.
@@ -489,13 +497,13 @@ Definition e_height es b := b_height (e_binfo es b).
 Definition e_invalid es b := b_invalid (e_binfo es b).
 
 Definition init_estate (c : cfg) : estate :=
-  mkE init_blocks [(0, 0)] [] [] 0 [0] [] [] [] 0 (c_ready c) false [].
+  mkE init_blocks [(0, 0)] [] [] 0 [0] [] [] [] 0 (c_ready c) false [] 0.
 
 Definition eguard (Q : N) (es : estate) (o : op) : bool :=
   match o with
   | OParseNew _ _ => true
   | OParse b => b <? lenN (e_blocks es)
-  | OBuild => e_ready es
+  | OBuild => e_ready es && (hasK (e_pref es) (e_proc es) || (e_pref es =? e_last es))
   | OVerify h =>
     match lookup h (e_hid es) with
     | None => false
@@ -537,23 +545,22 @@ Definition learn (r : res) (es : estate) : estate :=
   match r with
   | RBlk (BH h) b _ _ =>
     mkE (e_blocks es) (mput h b (e_hid es)) (e_built es) (e_proc es) (e_last es) (e_chain es) (e_acc es)
-        (e_rej es) (e_ver es) (e_pending es) (e_ready es) (e_started es) (e_sync es)
+        (e_rej es) (e_ver es) (e_pending es) (e_ready es) (e_started es) (e_sync es) (e_pref es)
   | _ => es
   end.
 
 Definition eupd (es : estate) (o : op) (r : res) (evs : list event) : estate :=
   match o with
   | OParseNew p inv =>
-    let ht := match nthN (e_blocks es) p with Some i => b_height i + 1 | None => 0 end in
-    learn r (mkE (e_blocks es ++ [mkB p ht inv]) (e_hid es) (e_built es) (e_proc es) (e_last es) (e_chain es)
-                 (e_acc es) (e_rej es) (e_ver es) (e_pending es) (e_ready es) (e_started es) (e_sync es))
+    learn r (mkE (e_blocks es ++ [new_binfo (e_blocks es) p inv]) (e_hid es) (e_built es) (e_proc es) (e_last es) (e_chain es)
+                 (e_acc es) (e_rej es) (e_ver es) (e_pending es) (e_ready es) (e_started es) (e_sync es) (e_pref es))
   | OParse _ => learn r es
   | OBuild =>
     match r, evs with
     | RBlk (BH h) b _ _, [EBuild p _] =>
       learn r (mkE (e_blocks es ++ [mkB p (e_height es p + 1) false]) (e_hid es) (h :: e_built es) (e_proc es)
                    (e_last es) (e_chain es) (e_acc es) (e_rej es) (e_ver es) (e_pending es) (e_ready es)
-                   (e_started es) (e_sync es))
+                   (e_started es) (e_sync es) (e_pref es))
     | _, _ => es
     end
   | OVerify h =>
@@ -561,7 +568,7 @@ Definition eupd (es : estate) (o : op) (r : res) (evs : list event) : estate :=
     | RUnit, Some b =>
       mkE (e_blocks es) (e_hid es) (e_built es) (mput b h (e_proc es)) (e_last es) (e_chain es) (e_acc es)
           (e_rej es) (if e_ready es then e_ver es ++ [(b, memN h (e_built es))] else e_ver es)
-          (e_pending es) (e_ready es) (e_started es) (e_sync es)
+          (e_pending es) (e_ready es) (e_started es) (e_sync es) (e_pref es)
     | _, _ => es
     end
   | OAccept h =>
@@ -570,34 +577,37 @@ Definition eupd (es : estate) (o : op) (r : res) (evs : list event) : estate :=
       mkE (e_blocks es) (e_hid es) (e_built es) (remove_key b (e_proc es)) b (b :: e_chain es)
           (if e_ready es then e_acc es ++ [b] else e_acc es) (e_rej es) (e_ver es)
           (if e_ready es then e_pending es + 1 else e_pending es) (e_ready es) (e_started es)
-          (if e_ready es then e_sync es else e_sync es ++ [b])
+          (if e_ready es then e_sync es else e_sync es ++ [b]) (e_pref es)
     | _, _ => es
     end
   | OReject h =>
     match r, lookup h (e_hid es) with
     | RUnit, Some b =>
       mkE (e_blocks es) (e_hid es) (e_built es) (remove_key b (e_proc es)) (e_last es) (e_chain es) (e_acc es)
-          (e_rej es ++ [b]) (e_ver es) (e_pending es) (e_ready es) (e_started es) (e_sync es)
+          (e_rej es ++ [b]) (e_ver es) (e_pending es) (e_ready es) (e_started es) (e_sync es) (e_pref es)
     | _, _ => es
     end
   | OProcess =>
     match r with
     | RUnit => mkE (e_blocks es) (e_hid es) (e_built es) (e_proc es) (e_last es) (e_chain es) (e_acc es)
-                   (e_rej es) (e_ver es) (e_pending es - 1) (e_ready es) (e_started es) (e_sync es)
+                   (e_rej es) (e_ver es) (e_pending es - 1) (e_ready es) (e_started es) (e_sync es) (e_pref es)
     | _ => es
     end
   | OStartSync b =>
     match r with
     | RUnit => mkE (e_blocks es) (e_hid es) (e_built es) (e_proc es) b (b :: e_chain es) (e_acc es)
-                   (e_rej es) (e_ver es) (e_pending es) false true [b]
+                   (e_rej es) (e_ver es) (e_pending es) false true [b] (e_pref es)
     | _ => es
     end
   | OFinishSync _ =>
     match r with
     | RUnit => mkE (e_blocks es) (e_hid es) (e_built es) (e_proc es) (e_last es) (e_chain es) (e_acc es)
-                   (e_rej es) (e_ver es) (e_pending es) true (e_started es) (e_sync es)
+                   (e_rej es) (e_ver es) (e_pending es) true (e_started es) (e_sync es) (e_pref es)
     | _ => es
     end
+  | OSetPref b =>
+    mkE (e_blocks es) (e_hid es) (e_built es) (e_proc es) (e_last es) (e_chain es) (e_acc es)
+        (e_rej es) (e_ver es) (e_pending es) (e_ready es) (e_started es) (e_sync es) b
   | _ => es
   end.
 
@@ -647,3 +657,86 @@ Fixpoint eqb_listN (a b : list N) : bool :=
   | x :: a', y :: b' => (x =? y) && eqb_listN a' b'
   | _, _ => false
   end.
+
+(* ================================================================== C20 as executable predicates
+   (used verbatim by Props/C20.v on the model's runs and by Check/C20_check.v on the implementation's) *)
+(* lookups answered from the accepted chain / the processing set, checked against the engine's
+   own bookkeeping at the time of the call *)
+Definition chain_at_height (es : estate) (k : N) : option N :=
+  find (fun b => e_height es b =? k) (e_chain es).
+
+Definition lookup_ok (es : estate) (o : op) (r : res) : bool :=
+  match o with
+  | OGetBlock b =>
+    if memN b (e_chain es) then match r with RBlk _ b' _ _ => b' =? b | _ => false end
+    else match lookup b (e_proc es) with
+         | Some h => match r with RBlk (BH h') b' _ _ => (h' =? h) && (b' =? b) | _ => false end
+         | None => true
+         end
+  | OGetIDAtHeight k =>
+    match chain_at_height es k with
+    | Some b => match r with RId b' => b' =? b | _ => false end
+    | None => true
+    end
+  | OGetByHeight k =>
+    match chain_at_height es k with
+    | Some b => match r with RBlk _ b' _ _ => b' =? b | _ => false end
+    | None => true
+    end
+  | OLastAccepted => match r with RId b => b =? e_last es | _ => false end
+  | _ => true
+  end.
+
+Fixpoint lookups_ok (Q : N) (es : estate) (ops : list op) (obs : list (res * list event)) : bool :=
+  match ops, obs with
+  | o :: r, (rs, evs) :: obs' => lookup_ok es o rs && lookups_ok Q (eupd es o rs evs) r obs'
+  | _, _ => true
+  end.
+
+(* chain VerifyBlock / BuildBlock only on the output of a block the chain verified, built or
+   was initialised with; the verified block is a child of that parent *)
+Fixpoint verify_parents_ok (es : estate) (outs : list N) (tr : list event) : bool :=
+  match tr with
+  | [] => true
+  | EVerify p b ok :: r =>
+    memN p outs && (e_parent es b =? p) && Bool.eqb ok (negb (e_invalid es b))
+    && verify_parents_ok es (if ok then b :: outs else outs) r
+  | EBuild p b :: r => memN p outs && (e_parent es b =? p) && verify_parents_ok es (b :: outs) r
+  | EBuildNil :: _ => false
+  | _ :: r => verify_parents_ok es outs r
+  end.
+
+(* the accepted sequence is a chain: each block is the child of the previous one *)
+Fixpoint chain_from (es : estate) (prev : N) (l : list N) : bool :=
+  match l with
+  | [] => true
+  | b :: r => (e_parent es b =? prev) && (e_height es b =? e_height es prev + 1) && chain_from es b r
+  end.
+
+Fixpoint nodupb (l : list N) : bool :=
+  match l with [] => true | x :: r => negb (memN x r) && nodupb r end.
+
+Definition verified_parsed (es : estate) : list N :=
+  map fst (filter (fun x => negb (snd x)) (e_ver es)).
+
+(* C20 lifecycle, evaluated on a trace and the engine's decisions (normal operation only) *)
+Definition lifecycle_b (tr : list event) (es : estate) : bool :=
+  verify_parents_ok es [0] tr
+  (* AcceptBlock: the engine's accepted blocks, in order, once each, (all of them once the queue is drained) *)
+  && eqb_listN (accepts tr) (firstn (length (accepts tr)) (e_acc es))
+  && (N.of_nat (length (accepts tr)) + e_pending es =? N.of_nat (length (e_acc es)))
+  && chain_from es 0 (e_acc es) && nodupb (e_acc es)
+  && forallb (fun b => negb (memN b (e_rej es))) (e_acc es)
+  (* notifications one-to-one with decisions *)
+  && eqb_listN (naccepted tr) (0 :: accepts tr)
+  && eqb_listN (nrejected tr) (e_rej es)
+  && eqb_listN (nverified tr) (verified_parsed es)
+  && eqb_listN (npreaccepted tr) [] && eqb_listN (nprerejected tr) [].
+
+(* the clause refuted by F-21: every successful Verify, built blocks included, is notified *)
+Definition built_clause_b (tr : list event) (es : estate) : bool :=
+  eqb_listN (nverified tr) (map fst (e_ver es)).
+
+Definition no_sync (ops : list op) : bool :=
+  forallb (fun o => match o with OStartSync _ | OFinishSync _ => false | _ => true end) ops.
+
